@@ -152,6 +152,7 @@ func gen(r *verifsim.Rng, tier string) (any, hx.Sched) {
 				// resolve a class that exists only as a file on the class path, on demand, through this VM
 				op.K = "autoload"
 				op.Defs = []Def{{"class", verifsim.Pick(r, loadables)}}
+				op.FaultAfter = r.Intn(2) // 0: GetOrLoadClass / GetOrLoadInterface, 1: LoadPkg
 			}
 		default:
 			op.K = "discard"
@@ -225,7 +226,7 @@ type sys struct {
 	shared data.GetValue
 	svars  []data.Variable
 	// auto[v][name]: VM v (0 base) has autoloaded name
-	auto map[int]map[string]bool
+	auto map[int]map[string]string
 }
 
 func (s *sys) vm(i int) data.VM {
@@ -464,7 +465,7 @@ func exec(t *testing.T, x any, s hx.Sched) *hx.Outcome {
 	o := &hx.Outcome{}
 	var log []string
 	res := hx.RunBubble(t, s.Config(0), func(sim *verifsim.Sim) {
-		sy := &sys{env: hx.NewEnv(), tagOf: map[string]string{}, outs: map[string]string{}, auto: map[int]map[string]bool{}}
+		sy := &sys{env: hx.NewEnv(), tagOf: map[string]string{}, outs: map[string]string{}, auto: map[int]map[string]string{}}
 		sy.env.VM.AddNamespace("fx12", fx12Dir())
 		sy.env.Capture()
 		sy.env.VM.AddFunc(&hx.GoFunc{Name: "__out", Params: []string{"r"}, Fn: func(ctx data.Context, a []data.Value) (data.GetValue, data.Control) {
@@ -580,8 +581,16 @@ func step(o *hx.Outcome, w *W, sy *sys, m *model, k int, op Op, log *[]string, o
 		name := op.Defs[0].Name
 		var c any
 		var ctl data.Control
-		if strings.HasSuffix(name, "\\Ia") {
+		entry := "GetOrLoadClass"
+		if op.FaultAfter == 1 {
+			entry = "LoadPkg"
+		} else if strings.HasSuffix(name, "\\Ia") {
+			entry = "GetOrLoadInterface"
+		}
+		if op.FaultAfter != 1 && strings.HasSuffix(name, "\\Ia") {
 			c, ctl = sy.vm(op.VM).GetOrLoadInterface(name)
+		} else if op.FaultAfter == 1 { // (field reused as a selector: the entry point `new X` / type hints use)
+			c, ctl = sy.vm(op.VM).LoadPkg(name)
 		} else {
 			c, ctl = sy.vm(op.VM).GetOrLoadClass(name)
 		}
@@ -591,13 +600,13 @@ func step(o *hx.Outcome, w *W, sy *sys, m *model, k int, op Op, log *[]string, o
 		*log = append(*log, fmt.Sprintf("%d autoload vm%d %s -> found=%v %s", k, op.VM, name, c != nil && ctl == nil, first(hx.CtlStr(ctl))))
 		o.Probe("autoload_through_a_vm", 1)
 		if c == nil || ctl != nil {
-			o.Violate("C12/lost/autoload", fmt.Sprintf("step %d: vm%d cannot resolve %s, a class that exists as a file on the class path and that every VM could resolve on demand before: %s (history: %s)", k, op.VM, name, first(hx.CtlStr(ctl)), histStr(w, k)))
+			o.Violate("C12/lost/autoload/"+entry, fmt.Sprintf("step %d: vm%d cannot resolve %s, a class that exists as a file on the class path and that every VM could resolve on demand before: %s (history: %s)", k, op.VM, name, first(hx.CtlStr(ctl)), histStr(w, k)))
 			break
 		}
 		if sy.auto[op.VM] == nil {
-			sy.auto[op.VM] = map[string]bool{}
+			sy.auto[op.VM] = map[string]string{}
 		}
-		sy.auto[op.VM][name] = true
+		sy.auto[op.VM][name] = entry
 	case "discard":
 		delete(sy.auto, op.VM)
 		sy.temps[op.VM-1] = runtime.NewTempVM(sy.env.VM).(*runtime.TempVM)
@@ -702,13 +711,19 @@ func step(o *hx.Outcome, w *W, sy *sys, m *model, k int, op Op, log *[]string, o
 				c, ok := sy.vm(v).GetClass(name)
 				has = ok && c != nil
 			}
-			may := sy.auto[0][name] || sy.auto[v][name]
+			may := sy.auto[0][name] != "" || sy.auto[v][name] != ""
+			via := "unknown"
+			for u := 0; u <= w.Temps; u++ {
+				if e := sy.auto[u][name]; e != "" {
+					via = e
+				}
+			}
 			vmk := "temp"
 			if v == 0 {
 				vmk = "base"
 			}
 			if has && !may {
-				o.Violate("C12/leak/autoload/into-"+vmk, fmt.Sprintf("after step %d, vm%d has %s registered although only another VM loaded it (history: %s)", k, v, name, histStr(w, k)))
+				o.Violate("C12/leak/autoload/"+via+"/into-"+vmk, fmt.Sprintf("after step %d, vm%d has %s registered although only another VM loaded it, through %s (history: %s)", k, v, name, via, histStr(w, k)))
 			}
 			if !has && may {
 				o.Violate("C12/lost/autoloaded/"+vmk, fmt.Sprintf("after step %d, vm%d no longer has %s although it (or the base VM) loaded it (history: %s)", k, v, name, histStr(w, k)))
@@ -725,7 +740,7 @@ func histStr(w *W, upto int) string {
 		}
 		s := fmt.Sprintf("%d:%s@vm%d", k, op.K, op.VM)
 		if op.K == "autoload" {
-			s += "[" + op.Defs[0].Name + "]"
+			s += "[" + op.Defs[0].Name + map[int]string{0: "", 1: " via LoadPkg"}[op.FaultAfter] + "]"
 		}
 		if op.K == "def" {
 			var ds []string
